@@ -33,6 +33,7 @@ def plan(tier, seed):
         if not q:
             conds.append(Cond("l2-%s-2cuts" % H.OPS[opi][0], F, "l2", env={"C05_OP": opi, "C05_TWO": 1, "C05_NCAPS": 2},
                               timeout=3000))
+    conds.append(Cond("l3-big-replies", F, "l3", timeout=280 if q else 900))
     conds.append(Cond("l1-vacuity", F, "l1_line", env={"C05_LB": 1, "C05_L1": 1, "C05_L2": 1}, timeout=90, vacuity=True))
     conds.append(Cond("l2-vacuity", F, "l2", env={"C05_OP": 5}, timeout=90, vacuity=True))
     meta = dict(functions=["sievelib.managesieve.Client.__read_block", "__read_line", "__read_response", "__parse_error",
@@ -44,7 +45,9 @@ def plan(tier, seed):
                               "cut%s x recv() capped at %s, each followed by a sentinel operation; compared with the single-segment run"
                               % (H.NOP, sum(len(c) for c in H.CORPUS), "" if q else " (and of two cuts, caps none/1)",
                                  "none/1/3" if q else "none/1/2/3/7/64")},
-                outside=["segment contents longer than the L1 bounds (covered only through L2's corpus)",
+                outside=["L3: three replies of 6-11 kB (script body, listing, NO with a 4 kB literal text after a big body) x 19 cut places "
+                         "around 0 and the 4096 / 8192 boundaries x recv() capped at none/4096/1000/64",
+                         "segment contents longer than the L1 bounds (covered only through L2's corpus)",
                          "non-ASCII bytes in the line reader lemma (CrossHair's regex model is not exact above 0x7f); they occur in L2"],
                 assumptions=["FakeSock.recv(n) returns at most n bytes of the head segment; nothing left = socket.timeout, or b'' "
                              "when eof mode", "L1 side condition L0 is re-derived from the AST on every run"],
